@@ -85,6 +85,13 @@ fn bounded_search_over_encoded_path_parameters() {
     assert_eq!(extract_path::<Wide>(&r4, "/-128/340282366920938463463374607431768211455").unwrap(), Wide { big: u128::MAX, tiny: i8::MIN });
     assert!(extract_path::<Wide>(&r4, "/-129/1").is_err() && extract_path::<Wide>(&r4, "/+1/1").is_ok() == "+1".parse::<i8>().is_ok(), "numbers are parsed the way str::parse does");
     assert!(extract_path::<Wide>(&r4, "/%201/1").is_err(), "a number with an encoded leading space is not a number");
+    // values are taken as they are: surrounding blanks are part of a string, and make a number / boolean / char invalid
+    assert_eq!(extract_path::<One>(&r1, "/%20padded%20").unwrap().v, " padded ");
+    assert!(extract_path::<Wide>(&r4, "/1%20/1").is_err() && extract_path::<Wide>(&r4, "/1/%091").is_err(), "a padded number is not a number");
+    #[derive(serde::Deserialize, Debug, PartialEq)] struct Flag { on: bool, c: char }
+    let mut r5 = matchit::Router::new(); r5.insert("/{on}/{c}", 1u8).unwrap();
+    assert!(extract_path::<Flag>(&r5, "/true%20/a").is_err(), "a padded boolean is not a boolean");
+    assert_eq!(extract_path::<Flag>(&r5, "/true/%20").unwrap(), Flag { on: true, c: ' ' }, "a single blank is a valid char");
     println!("VERIF-BOUNDED test=bounded_search_over_encoded_path_parameters evaluations={n} bound=pseudo-random values (fixed seed) for one 8-field struct (u64, i64, u8, String, Cow<str>, bool, f64, char), strings of 1-5 pieces out of 26 (reserved characters, multi-byte unicode, '%', '+', pre-encoded look-alikes), percent-encoded once, routed by the real matchit router; plus 7 malformed inputs");
 }
 
@@ -142,6 +149,14 @@ fn bounded_search_over_query_strings_forms_and_json() {
         Ok(q) if q.0.name == "Z\u{FFFD}rich" => println!("VERIF-DEVIATION id=form.invalid_utf8_is_decoded_lossily UrlEncodedBody::extract on `name=Z%FCrich` returned Ok(name = {:?}) instead of the documented extraction error", q.0.name),
         Ok(q) => panic!("form `name=Z%FCrich`: neither an error nor the lossy decoding: {:?}", q.0),
     }
+    // an empty body is not a JSON document, whatever the target type would accept
+    #[derive(serde::Deserialize, Debug, PartialEq)] struct Unit;
+    let hj = head("/", Some("application/json"));
+    let empty = BufferedBody { bytes: Vec::<u8>::new().into() };
+    assert!(JsonBody::<Option<Form>>::extract(&hj, &empty).is_err(), "an empty body was read as `null`");
+    assert!(JsonBody::<()>::extract(&hj, &empty).is_err() && JsonBody::<serde_json::Value>::extract(&hj, &empty).is_err() && JsonBody::<Option<u8>>::extract(&hj, &empty).is_err(), "an empty body was read as a JSON value");
+    assert!(JsonBody::<Option<u8>>::extract(&hj, &BufferedBody { bytes: "null".into() }).unwrap().0.is_none(), "`null` is a JSON document");
+    assert!(JsonBody::<Form>::extract(&hj, &BufferedBody { bytes: "   ".into() }).is_err(), "blanks are not a JSON document");
     // the content-type gate, both ways: what the documentation lists is accepted, everything else is the documented error
     let json_body = BufferedBody { bytes: serde_json::to_vec(&Form { id: 1, name: "n".into(), note: None, flag: true, big: 1 }).unwrap().into() };
     for ct in ["application/json", "application/json; charset=utf-8", "application/vnd.api+json", "application/problem+json", "APPLICATION/JSON", "application/ld+json;profile=x"] {
